@@ -246,6 +246,23 @@ def run(ctx, proofs, budgets, check_vals=True, check_degs=True, n_quick=500, n_t
         unjustified += [{"input": progs[i][1], "curve": progs[i][0], "budget": [kv, kd], "validator": "DegJustify.djust_cfg", "answer": o}
                         for (i, kv, kd), o in dvalid.items() if o == "(unjustified)"]
     ccmodel = constcond_all(M, progs, impl, budgets) if check_vals else {}
+    # the hypotheses of the budget theorems (C20_mirror_validated_at_every_budget, C20_propagate_completes), evaluated on
+    # the graph the implementation hands to propagation (budget 0/0: nothing has run yet)
+    hyp = {"checked": 0, "clean": 0}
+    hyp_bad = []
+    if ("0", "0") in budgets:
+        hl, hk = [], []
+        for i, (curve, src, _) in enumerate(progs):
+            o = impl[(i, "0", "0")]
+            if o.startswith("(ok "):
+                hl.append("clean %s" % sexp.show(sexp.parse(o)[2]))
+                hk.append(i)
+        for i, o in zip(hk, common.run_lines(M, [], hl, shards=common.NPROC, timeout=1200) if hl else []):
+            hyp["checked"] += 1
+            if o == "(clean)":
+                hyp["clean"] += 1
+            else:
+                hyp_bad.append({"input": progs[i][1], "curve": progs[i][0], "answer": o})
     cc_seen = {"reports": 0, "always_true": 0, "always_false": 0, "missing": 0}
     cc_missing = []
     disagreements, failing = [], []
@@ -306,7 +323,7 @@ def run(ctx, proofs, budgets, check_vals=True, check_degs=True, n_quick=500, n_t
         # at every pass budget 0..40 on the cases that disagree plus loop shapes whose claims need many passes
         escalated = escalate(ctx, H, orng, disagreements, unjustified, check_vals, check_degs)
         failing += escalated["failing"]
-    return {"escalated": None if escalated is None else {k: v for k, v in escalated.items() if k != "failing"}, "cc_seen": cc_seen, "cc_missing": cc_missing, "disagreements": disagreements, "failing": failing, "unjustified": unjustified, "validated": len(valid),
+    return {"hyp": hyp, "hyp_bad": hyp_bad, "escalated": None if escalated is None else {k: v for k, v in escalated.items() if k != "failing"}, "cc_seen": cc_seen, "cc_missing": cc_missing, "disagreements": disagreements, "failing": failing, "unjustified": unjustified, "validated": len(valid),
             "dvalidated": sum(1 for o in dvalid.values() if o == "(justified)"), "dskipped_arrays": sum(1 for o in dvalid.values() if o == "(arrays)"), "status": status, "claims": claims,
             "nontrivial": len(nontrivial), "evaluations": evaluations, "programs": len(progs),
             "exercised_value_claims": exercised_v, "exercised_degree_claims": exercised_d,
@@ -347,6 +364,9 @@ def verdict(ctx, proofs, r, kinds, known_classes, extra_cov=None):
             d = r["disagreements"][0]
             ctx.violation("correspondence Model.Propagate vs Cfg::propagate_values/propagate_degrees broken (%d cases)" % len(r["disagreements"]),
                           {"broken": "correspondence propagate (Model.Propagate.propagate)", "first": d}, no_input=True)
+        elif r.get("hyp_bad"):
+            ctx.violation("a graph handed to propagation does not meet the hypotheses of the budget theorems (%s; %d cases)" % (r["hyp_bad"][0]["answer"], len(r["hyp_bad"])),
+                          {"broken": "hypotheses clean_cfg / ldefs_unique of C20_mirror_validated_at_every_budget and C20_propagate_completes", "first": r["hyp_bad"][0]}, no_input=True)
         elif r.get("cc_missing") and "finding" in kinds:
             d = r["cc_missing"][0]
             ctx.violation("correspondence Model.ConstCond vs constant_conditional.rs broken: %d reports the mirror expects are not produced" % len(r["cc_missing"]),
@@ -374,6 +394,8 @@ def verdict(ctx, proofs, r, kinds, known_classes, extra_cov=None):
         "disagreements_model_vs_impl": len(r["disagreements"]),
         "input_origins": r["origins"],
     }
+    if r.get("hyp", {}).get("checked"):
+        cov["graphs_meeting_the_hypotheses_of_the_budget_theorems"] = r["hyp"]
     if r.get("escalated"):
         cov["escalated_search_after_broken_correspondence"] = r["escalated"]
     if "finding" in kinds:
